@@ -760,6 +760,9 @@ func (ctx Ctx) callExpr(s *ast.CallExpr) coq.Expr {
 			if e.Kind == token.STRING {
 				v := ctx.info.Types[e].Value
 				msg = constant.StringVal(v)
+				if strings.ContainsRune(msg, '"') {
+					ctx.unsupported(e, "panic messages with quotes")
+				}
 			}
 		}
 		return coq.NewCallExpr(coq.GallinaIdent("Panic"), coq.GallinaString(msg))
